@@ -13,6 +13,17 @@ Two kinds of units, both scope units (DESIGN.md 3.3, section 4 / C14):
   measured with a probe file (unique values, read in full), so this verdict does not depend on the
   orientation / shape clauses judged by the round-trip units.
 
+Further alphabets / histories around the round trip (wave 8):
+* layout_*      -- the memory layout of the array handed to a writer (Fortran order, transposed view, strided, negative
+  strides, padded rows, read-only, byte-swapped) x dtype: the writers return nothing, so the call-hygiene variants
+  cannot vary the layout for them.
+* rt_zygo_frame -- a camera frame passed next to the map (dtype x frame shape x reader action) and a second generation
+  in which everything the reader returned, frame included, is written again.
+* hist_interferogram -- every event sequence up to a depth on an Interferogram (fresh / loaded / carrying a header
+  dict) before it is saved; oracle: the file says what the object held when saved, and equals the file of a fresh
+  object built from the current values.
+* hist_pair     -- ordered pairs of different writes; the second is judged.
+
 Quantisation steps, derived from the formats:
   Zygo .dat  -- phase is a big-endian int32 count of "zygos"; one count = S*O*wavelength/R metres
                 (MetroPro reference guide p.12-6); the writer sets S = O = 1 and phase_res = 1
@@ -80,6 +91,15 @@ INT_OK = {'int32': ('mixed', 'pos', 'neg', 'const', 'zero', 'outlier', 'sag1e7',
           'int16': ('mixed', 'pos', 'neg', 'const', 'zero')}
 FORM_V_QUICK = ('mixed', 'pos', 'zero', 'huge', 'sag3e8')   # quick tier: argument forms on these value classes, every shape and NaN pattern
 WVLS = [0.6328, 1.55]
+# memory layout of the array handed to a writer (besides 'C': a fresh C-ordered array).  The writers return nothing, so the
+# hygiene layer's Fortran-order / strided variants cannot see them: the layout is an explicit alphabet axis here.
+LAYOUTS = ['F', 'T', 'strided', 'neg', 'rowpad', 'readonly', 'swapped']
+LAYOUT_DTYPES = ['float32', 'int32']      # besides float64: crossed with the layouts that change the element order (F, T)
+LAYOUT_V_QUICK = ('mixed', 'neg')
+# camera frame handed to the writer next to the map (write_zygo_dat(..., intensity=) / Interferogram(..., intensity=))
+FRAME_DTYPES = ['uint16', 'uint8', 'int16', 'int32', 'int64', 'float32', 'float64', 'bool', 'list']
+FRAME_SHAPES = ['smaller', 'larger', '1x1', 'empty']     # besides 'same'
+READ_ACTIONS = ['first', 'avg', 'last']                  # multi_intensity_action of the readers
 
 _TALLY = collections.Counter()       # per-cut outcome classes of this process (see __main__)
 
@@ -286,6 +306,36 @@ def typed_tolerance(a, fmt, wvl, dt):
     return tol, step
 
 
+def laid_out(a0, layout):
+    """A new array with the values (and dtype kind) of a0 in the given memory layout; a0 itself is not handed on."""
+    n0, n1 = a0.shape
+    if layout == 'C':
+        x = a0.copy()
+    elif layout == 'F':                 # Fortran-ordered, owns its buffer
+        x = np.asfortranarray(a0.copy())
+    elif layout == 'T':                 # transposed view of a C-ordered (n1, n0) array
+        x = np.ascontiguousarray(a0.T).T
+    elif layout == 'strided':           # every 2nd row / 3rd column of a larger array whose other cells hold other numbers
+        big = np.full((2 * n0 + 1, 3 * n1 + 2), 7777, dtype=a0.dtype)
+        x = big[1::2, 2::3][:n0, :n1]
+        x[...] = a0
+    elif layout == 'neg':               # negative strides on both axes
+        x = np.ascontiguousarray(a0[::-1, ::-1])[::-1, ::-1]
+    elif layout == 'rowpad':            # C-ordered rows of a wider array (not contiguous)
+        big = np.full((n0, n1 + 3), 7777, dtype=a0.dtype)
+        x = big[:, :n1]
+        x[...] = a0
+    elif layout == 'readonly':
+        x = a0.copy()
+        x.setflags(write=False)
+    elif layout == 'swapped':           # non-native byte order (an array memory-mapped from a big-endian file)
+        x = a0.astype(a0.dtype.newbyteorder('>'))
+    else:
+        raise ValueError(layout)
+    assert x.shape == a0.shape and np.array_equal(x, a0, equal_nan=True)
+    return x
+
+
 # ---------------------------------------------------------------------------------------------
 # round trip
 
@@ -298,13 +348,20 @@ def run_roundtrip(case, seed, R):
     a0, a = typed_map(make_map(shape, case['v'], case['nan'], fmt, wvl, seed), dt)   # a0: pristine, never handed to the library
     tol, step = typed_tolerance(a, fmt, wvl, dt)
     what = f"{w} {shape} {case['v']}/{case['nan']} {dt}"
+    layout = case.get('layout', 'C')
+    lsfx = ':after-other-write' if case.get('after') else ''
+    if layout != 'C':
+        what += f' layout={layout}'
+        lsfx += ':layout'             # signature suffix: a verdict that needs a non-C memory layout
+        a_pr = laid_out(a0, layout)
+        a0 = a_pr.copy()              # pristine copy in the dtype / byte order handed to the writer
     tmp = tempfile.mkdtemp(prefix='verif-c14-', dir='/tmp')
     try:
         if w == 'zygo':
-            site = 'zygo_dat:roundtrip'
+            site = 'zygo_dat:roundtrip' + lsfx
             path = os.path.join(tmp, 'm.dat')
             dx = case['dx']
-            a_in = a0.copy()
+            a_in = a0.copy() if layout == 'C' else a_pr
             form = case.get('form', 'kw')
             what += f' form={form}'
             rkw = {}
@@ -333,10 +390,10 @@ def run_roundtrip(case, seed, R):
             judge_scalar(R, rdx, dx, HDR_REL, f'{site}:dx' + (':zero' if dx == 0 else ''), f'{what}: lateral resolution [mm]')
             judge_scalar(R, rw, wvl, HDR_REL, f'{site}:wavelength' + (':default' if form == 'omitted' else ''), f'{what}: wavelength [um]')
         elif w == 'ifg':
-            site = 'Interferogram.zygo_dat:roundtrip'
+            site = 'Interferogram.zygo_dat:roundtrip' + lsfx
             path = os.path.join(tmp, 'm.dat')
             dx = case['dx']
-            a_in = a0.copy()
+            a_in = a0.copy() if layout == 'C' else a_pr
             form = case.get('form', 'kw')
             what += f' form={form}'
             rkw = {}
@@ -375,7 +432,7 @@ def run_roundtrip(case, seed, R):
             judge_scalar(R, rdx, dx, HDR_REL, f'{site}:dx' + (':zero' if dx == 0 else ''), f'{what}: dx [mm] (written {case["dx"]!r})')
             judge_scalar(R, rw, wvl, HDR_REL, f'{site}:wavelength' + (':default' if form == 'wvl-omitted' else ''), f'{what}: wavelength [um]')
         else:
-            site = 'codev_gridint:roundtrip'
+            site = 'codev_gridint:roundtrip' + lsfx
             path = os.path.join(tmp, 'm.int')
             form = case.get('form', 'explicit')
             if form == 'omitted':        # every optional argument left out: the documented defaults apply
@@ -388,7 +445,7 @@ def run_roundtrip(case, seed, R):
                     kw['comment'] = want['comment'] = case['comment']
                 if form == 'all-explicit':
                     kw['comment'] = want['comment']
-            a_in = a0.copy()
+            a_in = a0.copy() if layout == 'C' else a_pr
             if R.call(io.write_codev_gridint, a_in, path, sig=f'{site}:write:exception', **kw) is FAILED:
                 return
             unchanged(R, a_in, a0, 'codev_gridint:write:caller-array-modified', what)
@@ -642,6 +699,10 @@ def run_twice(case, seed, R):
         ext = '.int' if fmt == 'codev' else '.dat'
         p1, p2, p3 = (os.path.join(tmp, n + ext) for n in ('first', 'second', 'third'))
         a_in = a0.copy()
+        if case.get('layout', 'C') != 'C':      # the same non-C-ordered array object written twice
+            a_in = laid_out(a0, case['layout'])
+            a0 = a_in.copy()
+            what += f" layout={case['layout']}"
         if w == 'zygo':
             site = 'zygo_dat:write-twice'
             dx = case['dx']
@@ -722,6 +783,292 @@ def run_twice(case, seed, R):
         R.outcome('write-twice')
     finally:
         shutil.rmtree(tmp, ignore_errors=True)
+
+
+# ---------------------------------------------------------------------------------------------
+# a camera frame handed to the writer next to the map
+
+def make_frame(shape, idt, ishape):
+    """Deterministic 10-bit camera counts (none zero) of the given frame shape class and dtype; (frame, its shape)."""
+    n0, n1 = shape
+    fs = {'same': (n0, n1), 'smaller': (max(1, n0 - 1), max(1, n1 - 1)), 'larger': (n0 + 1, n1 + 2),
+          '1x1': (1, 1), 'empty': (0, 0)}[ishape]
+    counts = ((np.arange(fs[0] * fs[1], dtype=np.int64) * 37 + 11) % 1021 + 1).reshape(fs)
+    if idt == 'list':
+        return counts.tolist(), fs
+    if idt == 'bool':
+        return counts % 2 == 1, fs
+    if idt == 'uint8':
+        return (counts % 255 + 1).astype(np.uint8), fs
+    if idt == 'float32':
+        return (counts / 1023).astype(np.float32), fs       # a normalised frame
+    if idt == 'float64':
+        return counts + 0.5, fs                             # an averaged frame
+    return counts.astype(idt), fs
+
+
+def run_intensity(case, seed, R):
+    shape = tuple(case['shape'])
+    w, wvl, dx = case['writer'], case['wvl'], case['dx']
+    idt, ishape, action, regen = case['idt'], case['ishape'], case['action'], bool(case.get('regen'))
+    a = make_map(shape, case['v'], case['nan'], 'zygo', wvl, seed)
+    tol, step = tolerance(a, 'zygo', wvl)
+    frame, fs = make_frame(shape, idt, ishape)
+    fc = '16-bit' if idt in ('uint16', 'int16') else 'other-itemsize'
+    site = ('zygo_dat' if w == 'zygo' else 'Interferogram.zygo_dat') + f':intensity:{fc}'
+    what = f"{w} {shape} {case['v']}/{case['nan']} with a {idt} camera frame {fs}, read with multi_intensity_action={action!r}"
+    tmp = tempfile.mkdtemp(prefix='verif-c14-', dir='/tmp')
+    try:
+        path, path2 = os.path.join(tmp, 'm.dat'), os.path.join(tmp, 'm2.dat')
+        a_in = a.copy()
+        if w == 'zygo':
+            if R.call(io.write_zygo_dat, path, a_in, dx, wavelength=wvl, intensity=frame, sig=f'{site}:write:exception') is FAILED:
+                return
+            unchanged(R, a_in, a, 'zygo_dat:write:caller-array-modified', what)
+            out = R.call(io.read_zygo_dat, path, multi_intensity_action=action, sig=f'{site}:read:exception')
+            if out is FAILED:
+                return
+            try:
+                b, rdx, rw, frame2 = out['phase'], out['meta']['lateral_resolution'] * 1e3, out['meta']['wavelength'] * 1e6, out['intensity']
+            except Exception as e:   # noqa
+                R.violation(f'{site}:type', f'{what}: reader result has no phase/intensity/meta ({type(e).__name__}: {e})')
+                return
+        else:
+            i1 = R.call(Interferogram, a_in, dx=dx, wavelength=wvl, intensity=frame, sig=f'{site}:construct:exception')
+            if i1 is FAILED:
+                return
+            if R.call(i1.save_zygo_dat, path, sig=f'{site}:write:exception') is FAILED:
+                return
+            unchanged(R, a_in, a, 'Interferogram.zygo_dat:write:caller-array-modified', what)
+            i2 = R.call(Interferogram.from_zygo_dat, path, multi_intensity_action=action, sig=f'{site}:read:exception')
+            if i2 is FAILED:
+                return
+            try:
+                b, rdx, rw, frame2 = i2.data, i2.dx, i2.wavelength, i2.intensity
+            except Exception as e:   # noqa
+                R.violation(f'{site}:type', f'{what}: no data/dx/wavelength/intensity on the result ({type(e).__name__}: {e})')
+                return
+        judge_map(R, b, a, tol, site, what)
+        judge_scalar(R, rdx, dx, HDR_REL, f'{site}:dx', f'{what}: lateral resolution [mm]')
+        judge_scalar(R, rw, wvl, HDR_REL, f'{site}:wavelength', f'{what}: wavelength [um]')
+        if regen:
+            # second generation: what the reader returned (map, spacing, wavelength AND camera frame) is written again
+            site2 = site.split(':')[0] + f':intensity:regenerated:{action}'
+            what2 = what + '; second generation: the reader\'s map and frame written again'
+            try:
+                b_in = np.array(b, dtype=float, copy=True)
+            except Exception:   # noqa -- already reported by judge_map
+                return
+            if R.call(io.write_zygo_dat, path2, b_in, rdx, rw, frame2, sig=f'{site2}:write:exception') is FAILED:
+                return
+            if w == 'zygo':
+                out2 = R.call(io.read_zygo_dat, path2, multi_intensity_action=action, sig=f'{site2}:read:exception')
+                if out2 is FAILED:
+                    return
+                try:
+                    b2, rdx2, rw2 = out2['phase'], out2['meta']['lateral_resolution'] * 1e3, out2['meta']['wavelength'] * 1e6
+                except Exception as e:   # noqa
+                    R.violation(f'{site2}:type', f'{what2}: reader result has no phase/meta ({type(e).__name__}: {e})')
+                    return
+            else:
+                i3 = R.call(Interferogram.from_zygo_dat, path2, multi_intensity_action=action, sig=f'{site2}:read:exception')
+                if i3 is FAILED:
+                    return
+                try:
+                    b2, rdx2, rw2 = i3.data, i3.dx, i3.wavelength
+                except Exception as e:   # noqa
+                    R.violation(f'{site2}:type', f'{what2}: no data/dx/wavelength on the result ({type(e).__name__}: {e})')
+                    return
+            tol2, _ = tolerance(b_in, 'zygo', wvl)
+            judge_map(R, b2, b_in, tol2, site2, what2)
+            judge_scalar(R, rdx2, dx, HDR_REL, f'{site2}:dx', f'{what2}: lateral resolution [mm]')
+            judge_scalar(R, rw2, wvl, HDR_REL, f'{site2}:wavelength', f'{what2}: wavelength [um]')
+        R.nontrivial(True)
+        R.outcome('roundtrip+frame' + ('+regenerated' if regen else ''))
+    finally:
+        shutil.rmtree(tmp, ignore_errors=True)
+
+
+# ---------------------------------------------------------------------------------------------
+# object histories: an Interferogram is built / loaded, changed through its public attributes and methods, then saved
+
+OBJ_INITS = ['fresh', 'fresh-uncal', 'loaded', 'meta-passed', 'meta-wvl', 'meta-datx', 'user-meta']
+OBJ_EVENTS = [['latcal', 0.2], ['latcal', 1.75], ['strip_latcal'], ['set-dx', 0.125], ['set-wavelength', 1.064], ['set-data'],
+              ['decimate'], ['rebuild'], ['rebuild-decimated'], ['fill'], ['crop'], ['mask'], ['remove_piston'], ['pad'],
+              ['save'], ['reload'], ['set-intensity']]
+OBJ_INITS_DEEP = ['loaded', 'meta-passed']     # these to the full depth, the others one event less ('fresh' + reload is 'loaded')
+
+
+def _obj_map(shape, seed, wvl):
+    a = make_map(shape, 'mixed', 'corner', 'zygo', wvl, seed)
+    a[-1, :] = np.nan                # an invalid last row: crop() changes the shape
+    return a
+
+
+def _obj_init(init, a, tmp):
+    if init == 'fresh':
+        return Interferogram(a.copy(), dx=0.5, wavelength=0.6328)
+    if init == 'fresh-uncal':
+        return Interferogram(a.copy(), wavelength=1.55)
+    if init == 'user-meta':          # a user's own metadata dictionary
+        return Interferogram(a.copy(), dx=0.5, wavelength=0.6328, meta={'part': 'M1', 'operator': 'qa'})
+    if init == 'meta-datx':          # the .datx reader's key names; wavelength documented to come from meta (metres)
+        return Interferogram(a.copy(), dx=0.25, wavelength=None, meta={'Wavelength': 1.55e-6, 'Lateral Resolution': 2.5e-4})
+    p = os.path.join(tmp, 'init.dat')
+    Interferogram(a.copy(), dx=0.5, wavelength=0.6328).save_zygo_dat(p)
+    L = Interferogram.from_zygo_dat(p)
+    if init == 'loaded':
+        return L
+    if init == 'meta-passed':        # a new object that carries the loaded object's header dictionary along
+        return Interferogram(np.array(L.data), dx=L.dx, wavelength=L.wavelength, meta=L.meta)
+    if init == 'meta-wvl':           # wavelength taken from the header dictionary (documented)
+        return Interferogram(np.array(L.data), dx=L.dx, wavelength=None, meta=L.meta)
+    raise ValueError(init)
+
+
+def _obj_event(i, ev, tmp, k):
+    name = ev[0]
+    if name == 'latcal':
+        i.latcal(ev[1])
+    elif name == 'strip_latcal':
+        i.strip_latcal()
+    elif name == 'set-dx':
+        i.dx = ev[1]
+    elif name == 'set-wavelength':
+        i.wavelength = ev[1]
+    elif name == 'set-data':         # another map of the same shape
+        i.data = 0.5 * np.array(i.data[::-1, ::-1]) + 3.0
+    elif name == 'decimate':         # every second column, in place
+        i.data = i.data[:, ::2].copy()
+        i.dx = 2 * i.dx
+    elif name == 'rebuild':          # a new object from all the public attributes of the old one
+        i = Interferogram(np.array(i.data), dx=i.dx, wavelength=i.wavelength, intensity=i.intensity, meta=i.meta)
+    elif name == 'rebuild-decimated':
+        i = Interferogram(i.data[:, ::2].copy(), dx=2 * i.dx, wavelength=i.wavelength, meta=i.meta)
+    elif name == 'fill':
+        i.fill(0)
+    elif name == 'crop':
+        i.crop()
+    elif name == 'mask':
+        m = np.ones(i.data.shape, bool)
+        m[0, -1] = False
+        i.mask(m)
+    elif name == 'remove_piston':
+        i.remove_piston()
+    elif name == 'pad':
+        i.pad(samples=1)
+    elif name == 'save':
+        i.save_zygo_dat(os.path.join(tmp, f'ev{k}.dat'))
+    elif name == 'reload':
+        p = os.path.join(tmp, f'ev{k}.dat')
+        i.save_zygo_dat(p)
+        i = Interferogram.from_zygo_dat(p)
+    elif name == 'set-intensity':
+        i.intensity = (np.arange(i.data.size).reshape(i.data.shape) % 200 + 7).astype(np.uint8)
+    else:
+        raise ValueError(name)
+    return i
+
+
+def run_objhist(case, seed, R):
+    shape, init, hist = tuple(case['shape']), case['init'], case['events']
+    site = 'Interferogram.zygo_dat:history'
+    what = f'Interferogram {init} {shape}, then {hist}'
+    tmp = tempfile.mkdtemp(prefix='verif-c14-', dir='/tmp')
+    try:
+        a = _obj_map(shape, seed, 0.6328)
+        R.tick(3)
+        try:
+            i = _obj_init(init, a, tmp)
+            for k, ev in enumerate(hist):
+                R.tick()
+                i = _obj_event(i, ev, tmp, k)
+            # what the object says about itself right now is the reference
+            d0 = np.array(i.data, dtype=float, copy=True)
+            dx, wvl = float(i.dx), float(i.wavelength)
+            ok = d0.ndim == 2 and d0.size > 0 and np.isfinite(dx) and np.isfinite(wvl) and wvl > 0
+        except Exception as e:   # noqa -- an event that does not apply in this state is not this property's business
+            R.outcome(f'history:not-applicable:{type(e).__name__}')
+            return
+        if not ok:
+            R.outcome('history:not-applicable:state')
+            return
+        p1, p2 = os.path.join(tmp, 'final.dat'), os.path.join(tmp, 'fresh.dat')
+        if R.call(i.save_zygo_dat, p1, sig=f'{site}:write:exception') is FAILED:
+            return
+        unchanged(R, getattr(i, 'data', None), d0, f'{site}:data-modified-by-save', what + ' (.data of the saved object)')
+        judge_scalar(R, getattr(i, 'dx', None), dx, 0, f'{site}:dx-modified-by-save', what + ' (.dx of the saved object)')
+        judge_scalar(R, getattr(i, 'wavelength', None), wvl, 0, f'{site}:wavelength-modified-by-save', what + ' (.wavelength of the saved object)')
+        i2 = R.call(Interferogram.from_zygo_dat, p1, sig=f'{site}:read:exception')
+        if i2 is FAILED:
+            return
+        try:
+            b, rdx, rw = i2.data, i2.dx, i2.wavelength
+        except Exception as e:   # noqa
+            R.violation(f'{site}:type', f'{what}: no data/dx/wavelength on the result ({type(e).__name__}: {e})')
+            return
+        tol, _ = tolerance(d0, 'zygo', wvl)
+        judge_map(R, b, d0, tol, site, what)
+        judge_scalar(R, rdx, dx, HDR_REL, f'{site}:dx' + (':zero' if dx == 0 else ''), f'{what}: object had dx = {dx!r} mm when saved')
+        judge_scalar(R, rw, wvl, HDR_REL, f'{site}:wavelength', f'{what}: object had wavelength = {wvl!r} um when saved')
+        # differential: a fresh object built from the current values writes the same file
+        fr = R.call(Interferogram, d0.copy(), dx=dx, wavelength=wvl, sig=f'{site}:fresh:exception')
+        if fr is FAILED or R.call(fr.save_zygo_dat, p2, sig=f'{site}:fresh:exception') is FAILED:
+            return
+        same_file(R, _bytes(p2), _bytes(p1), 'zygo', f'{site}:file-differs-from-fresh-object',
+                  what + ' (file of a fresh Interferogram(data, dx, wavelength) with the current values vs file of the object with the history)')
+        R.nontrivial(True)
+        R.outcome(f'history:depth{len(hist)}')
+    finally:
+        shutil.rmtree(tmp, ignore_errors=True)
+
+
+# ---------------------------------------------------------------------------------------------
+# pairs of writes: a first file of another writer / shape / spacing / wavelength, then the judged one
+
+def _silent_roundtrip(case, seed):
+    """Write and read one configuration without judging it (its own unit does); nothing it does may leak into the next write."""
+    w = case['writer']
+    fmt = 'codev' if w == 'codev' else 'zygo'
+    wvl = case.get('wvl', 1.0)
+    a = make_map(tuple(case['shape']), case['v'], case['nan'], fmt, wvl, seed)
+    tmp = tempfile.mkdtemp(prefix='verif-c14-', dir='/tmp')
+    try:
+        with warnings.catch_warnings():
+            warnings.simplefilter('ignore')
+            if w == 'zygo':
+                p = os.path.join(tmp, 'first.dat')
+                fr = make_frame(a.shape, 'uint16', 'same')[0] if case.get('frame') else None
+                io.write_zygo_dat(p, a, case['dx'], wavelength=wvl, intensity=fr)
+                io.read_zygo_dat(p)
+            elif w == 'ifg':
+                p = os.path.join(tmp, 'first.dat')
+                Interferogram(a, dx=case['dx'], wavelength=wvl).save_zygo_dat(p)
+                Interferogram.from_zygo_dat(p)
+            else:
+                p = os.path.join(tmp, 'first.int')
+                io.write_codev_gridint(a, p, typ=case.get('typ', 'SUR'), nnb=bool(case.get('nnb', 0)))
+                io.read_codev_gridint(p)
+    except Exception:   # noqa
+        pass
+    finally:
+        shutil.rmtree(tmp, ignore_errors=True)
+
+
+PAIR_CFGS = [
+    {'writer': 'zygo', 'shape': [3, 5], 'v': 'mixed', 'nan': 'corner', 'dx': 0.5, 'wvl': 0.6328},
+    {'writer': 'zygo', 'shape': [2, 3], 'v': 'neg', 'nan': 'none', 'dx': 0.0123, 'wvl': 1.55, 'frame': 1},
+    {'writer': 'ifg', 'shape': [4, 4], 'v': 'pos', 'nan': 'checker', 'dx': 0, 'wvl': 1.55},
+    {'writer': 'ifg', 'shape': [5, 3], 'v': 'mixed', 'nan': 'row', 'dx': 7.1234567, 'wvl': 0.6328},
+    {'writer': 'codev', 'shape': [3, 5], 'v': 'neg', 'nan': 'corner', 'typ': 'SUR', 'nnb': 0, 'comment': 'default'},
+    {'writer': 'codev', 'shape': [4, 1], 'v': 'sag3e8', 'nan': 'none', 'typ': 'WFR', 'nnb': 1, 'comment': 'default'},
+]
+
+
+def run_pair(case, seed, R):
+    R.tick(2)
+    _silent_roundtrip(case['first'], seed)
+    run_roundtrip(dict(case['then'], after=True), seed, R)
 
 
 # ---------------------------------------------------------------------------------------------
@@ -985,6 +1332,66 @@ def plan(tier, seed):
                 tw2.append({'writer': 'zygo', 'shape': list(shape), 'v': v, 'nan': pat, 'dx': 0.5, 'wvl': 0.6328, 'dt': dt})
                 tw2.append({'writer': 'ifg', 'shape': list(shape), 'v': v, 'nan': pat, 'dx': 0.5, 'wvl': 0.6328, 'dt': dt})
             tw2.append({'writer': 'codev', 'shape': list(shape), 'v': v, 'nan': pat, 'dt': dt})
+    # memory layout of the array handed to the writer x every shape x NaN pattern (x dtype for the layouts that reorder elements)
+    thorough = tier == 'thorough'
+    lay_v = VCLASSES_CV if thorough else LAYOUT_V_QUICK
+    lz, li, lc = [], [], []
+    for shape, v, pat in _cells(shapes, lay_v, NANPATS):
+        for layout in LAYOUTS:
+            for dt in ['float64'] + (LAYOUT_DTYPES if (thorough or layout in ('F', 'T')) else []):
+                if dt != 'float64' and dt != 'float32' and (pat != 'none' or v not in INT_OK[dt]):
+                    continue
+                extra = {'layout': layout} if dt == 'float64' else {'layout': layout, 'dt': dt}
+                if v not in SAGS:
+                    lz.append(dict({'writer': 'zygo', 'shape': list(shape), 'v': v, 'nan': pat, 'dx': 0.5, 'wvl': 0.6328}, **extra))
+                    li.append(dict({'writer': 'ifg', 'shape': list(shape), 'v': v, 'nan': pat, 'dx': 0.5, 'wvl': 0.6328}, **extra))
+                lc.append(dict({'writer': 'codev', 'shape': list(shape), 'v': v, 'nan': pat, 'typ': 'SUR', 'nnb': 0, 'comment': 'default'}, **extra))
+    for shape, v, pat in _cells(SHAPES, ['mixed'], NANPATS):          # the same non-C-ordered array written twice
+        for layout in ('F', 'T', 'strided'):
+            tw2.append({'writer': 'zygo', 'shape': list(shape), 'v': v, 'nan': pat, 'dx': 0.5, 'wvl': 0.6328, 'layout': layout})
+            tw2.append({'writer': 'ifg', 'shape': list(shape), 'v': v, 'nan': pat, 'dx': 0.5, 'wvl': 0.6328, 'layout': layout})
+            tw2.append({'writer': 'codev', 'shape': list(shape), 'v': v, 'nan': pat, 'layout': layout})
+    # camera frame next to the map: dtype x frame shape x reader action, each followed by a second generation
+    fcells = [('mixed', 'corner'), ('neg', 'checker')] + ([('pos', 'none'), ('huge', 'allbut1'), ('zero', 'row')] if thorough else [])
+    frm = []
+    for shape in shapes:
+        for v, pat in fcells:
+            if nan_mask(shape, pat) is None:
+                continue
+            for w in ('zygo', 'ifg'):
+                base = {'writer': w, 'shape': list(shape), 'v': v, 'nan': pat, 'regen': 1}
+                for idt in FRAME_DTYPES:
+                    frm.append(dict(base, idt=idt, ishape='same', action='first', dx=0.5, wvl=0.6328))
+                seen = {make_frame(shape, 'uint16', 'same')[1]}
+                for ishape in FRAME_SHAPES:
+                    fs = make_frame(shape, 'uint16', ishape)[1]
+                    if fs in seen:
+                        continue
+                    seen.add(fs)
+                    for idt in ('uint16', 'float64'):
+                        frm.append(dict(base, idt=idt, ishape=ishape, action='first', dx=0.0123, wvl=1.55))
+                for action in READ_ACTIONS[1:]:
+                    for idt in ('uint16', 'uint8', 'float64'):
+                        frm.append(dict(base, idt=idt, ishape='same', action=action, dx=0.0123, wvl=1.55))
+    # object histories
+    oh = []
+    odepth = 3 if thorough else 2
+
+    def _hists(d):
+        out = [[]]
+        level = [[]]
+        for _ in range(d):
+            level = [h + [e] for h in level for e in OBJ_EVENTS]
+            out += level
+        return out
+    for init in OBJ_INITS:
+        deep = init in OBJ_INITS_DEEP
+        for h in _hists(odepth if deep else odepth - 1):
+            oh.append({'shape': [4, 6], 'init': init, 'events': h})
+        for h in _hists(1):
+            oh.append({'shape': [3, 5], 'init': init, 'events': h})
+    # ordered pairs of different writes
+    pair = [{'first': f, 'then': t} for f in PAIR_CFGS for t in PAIR_CFGS]
     if tier == 'quick':
         tshapes, tv, tn, tw = SHAPES, ['mixed', 'pos', 'zero', 'outlier'], ['none', 'corner', 'checker', 'allbut1'], [0.6328]
     else:
@@ -1023,7 +1430,31 @@ def plan(tier, seed):
                   f'histories of depth 2-4 on one object: shapes {SHAPES} x value classes x NaN patterns{dts} x dx {{0.5, 0}} x writer {{write_zygo_dat, Interferogram, write_codev_gridint}}: '
                   'write, write the SAME array / Interferogram again, read the second file: the second file equals the first byte for byte (Zygo timestamp field apart), '
                   'the caller\'s array / .data / .dx are unchanged after each write, the second file reads back as the pristine map; Interferogram additionally '
-                  'load -> save -> load: header identical to the first file, dx kept (0 stays 0), map within 2 steps', reset=_reset),
+                  'load -> save -> load: header identical to the first file, dx kept (0 stays 0), map within 2 steps; plus the same Fortran-ordered / transposed-view / strided array '
+                  'object written twice (mixed class, every shape and NaN pattern, all three writers)', reset=_reset),
+        ScopeUnit('layout_zygo', lz, run_roundtrip,
+                  f'memory layout of the array handed to the writer (the writers return nothing, so the hygiene layer cannot vary it): {sh} x value classes {list(lay_v)} x NaN patterns {NANPATS} x layout '
+                  f'{LAYOUTS} (Fortran-ordered, transposed view, every 2nd row / 3rd column of a larger array, negative strides, rows of a wider array, read-only, non-native byte order) x dtype {{float64; '
+                  f'{LAYOUT_DTYPES} with ' + ('every layout' if thorough else 'F and T') + '}}: io.write_zygo_dat -> io.read_zygo_dat, same oracle as rt_zygo (b[i,j] <-> a[i,j] of the logical array), the array must be unchanged by the write',
+                  reset=_reset),
+        ScopeUnit('layout_interferogram', li, run_roundtrip,
+                  'the same layout x dtype cells through Interferogram(array).save_zygo_dat -> Interferogram.from_zygo_dat', reset=_reset),
+        ScopeUnit('layout_codev', lc, run_roundtrip,
+                  'the same layout x dtype cells (plus the large-sag classes) through io.write_codev_gridint -> io.read_codev_gridint, oracle of rt_codev', reset=_reset),
+        ScopeUnit('rt_zygo_frame', frm, run_intensity,
+                  f'a camera frame handed to the writer next to the map: {sh} x cells {fcells} x writer {{io.write_zygo_dat(..., intensity=frame), Interferogram(..., intensity=frame).save_zygo_dat}} x frame dtype {FRAME_DTYPES} '
+                  f'(same shape as the map) plus frame shape {FRAME_SHAPES} x {{uint16, float64}} plus reader multi_intensity_action {READ_ACTIONS[1:]} x {{uint16, uint8, float64}}; the map, dx and wavelength read back are judged by the '
+                  'rt_zygo oracle (the frame itself is not part of the property); then a second generation: the map, spacing, wavelength AND frame the reader returned are passed to io.write_zygo_dat again and read back '
+                  '(oracle: equal to the first-generation map within one step).  Not closed over frame content (one deterministic 10-bit ramp)', reset=_reset),
+        ScopeUnit('hist_interferogram', oh, run_objhist,
+                  f'object histories: initial object {OBJ_INITS} (fresh / uncalibrated / loaded from a file / built with meta= of a loaded object, with wavelength from meta, with .datx-style or user meta) x EVERY sequence of '
+                  f'<= {odepth} events ({OBJ_INITS_DEEP}; the other inits <= {odepth - 1}) from {OBJ_EVENTS} (every public attribute save_zygo_dat reads -- data, dx, wavelength -- reassigned; the methods that change them; '
+                  'intermediate save / save+load; a new object built from the old one\'s attributes) on a 4x6 map with an invalid row (3x5: depth <= 1), then save_zygo_dat -> from_zygo_dat.  Oracle: the file reads back as '
+                  'what the object held when it was saved (.data within one step, .dx, .wavelength at float32 precision), the save leaves the object unchanged, and the file equals byte for byte (timestamp apart) the file of a '
+                  'fresh Interferogram(data, dx, wavelength) built from the current values; an event that raises in a state ends the history unjudged', reset=_reset),
+        ScopeUnit('hist_pair', pair, run_pair,
+                  f'every ordered pair of {len(PAIR_CFGS)} write+read configurations (writer zygo / Interferogram / Code V x different shape, sign class, NaN pattern, dx, wavelength, one with a uint16 frame): the first is executed '
+                  'unjudged, the second is judged by the round-trip oracle (nothing of the first write may leak into the second file)', reset=_reset),
         ScopeUnit('trunc_zygo', tz, run_trunc,
                   f'files of <= 20 samples: shapes {[tuple(s) for s in tshapes]} x {tv} x {tn} x wavelength {tw}; EVERY byte cut of the int32 block '
                   '(keep 0..4N-1 bytes) through io.read_zygo_dat: exception, or warning + incomplete samples NaN + complete samples equal to the untruncated read',
